@@ -55,6 +55,7 @@ def run(prog, chk):
     from props import strops
     chk.rule(strops.check_for, prog, chk, "C08")  # A14.str-ops: how this property's strings are cut up is a reviewed, frozen inventory
     chk.rule(strops.blank_only_separators, prog, chk)  # a pair / list cut at blanks is cut at tabs and newlines too
+    chk.rule(strops.empty_test_before_trim, prog, chk)  # pieces are tested for emptiness after trimming, not before
 
 
 def _lit(body, t, i):
